@@ -291,6 +291,7 @@ func checkC10(c *Ctx) {
 	c09FormatStrings(c, "R-frame-verbatim")
 	c10HandlerErrorContained(c, "R-handler-error-contained")
 	c10MetaKept(c, "R-meta-kept")
+	c10FlattenKeepsAll(c)
 }
 
 func c10Client(c *Ctx) {
@@ -636,4 +637,114 @@ func c10MetaKept(c *Ctx, rule string) {
 		})
 	}
 	c.R.Min(rule, 2)
+}
+
+// c10FlattenKeepsAll (R-meta-kept): a marshaller that flattens a map member into the object it emits (range over the
+// member, `out[k] = v`) keeps every entry: an iteration may skip its store only on the "already present in out" edge of a
+// lookup in out. A skip decided by the key alone (`if k == "_meta" { continue }`) silently drops what a sender put
+// there — the `_meta` of a notification built from a params map with a typed value.
+func c10FlattenKeepsAll(c *Ctx) {
+	n := 0
+	for _, fn := range c.P.LibFns {
+		if fn.Name() != "MarshalJSON" || fn.Signature.Recv() == nil {
+			continue
+		}
+		ir.EachInstr(fn, func(_ *ssa.BasicBlock, _ int, in ssa.Instruction) {
+			nx, ok := in.(*ssa.Next)
+			if !ok || nx.IsString {
+				return
+			}
+			rg, ok := nx.Iter.(*ssa.Range)
+			if !ok {
+				return
+			}
+			f, _, ok := ir.LoadedField(rg.X)
+			if !ok {
+				return
+			}
+			var okv, key ssa.Value
+			for _, r := range *nx.Referrers() {
+				if ex, ok := r.(*ssa.Extract); ok {
+					switch ex.Index {
+					case 0:
+						okv = ex
+					case 1:
+						key = ex
+					}
+				}
+			}
+			if okv == nil || key == nil {
+				return
+			}
+			header := nx.Block()
+			ifi, ok := header.Instrs[len(header.Instrs)-1].(*ssa.If)
+			if !ok || ifi.Cond != okv {
+				return
+			}
+			// the output map: target of a MapUpdate keyed by the range key
+			var out ssa.Value
+			for _, r := range *key.Referrers() {
+				if mu, ok := r.(*ssa.MapUpdate); ok && mu.Key == key {
+					out = mu.Map
+				}
+			}
+			if out == nil {
+				return // not a flattening loop
+			}
+			n++
+			// search: body entry -> header without a store and without the "already present" edge
+			seen := map[*ssa.BasicBlock]bool{}
+			stack := []*ssa.BasicBlock{header.Succs[0]}
+			var skip *ssa.BasicBlock
+			for len(stack) > 0 && skip == nil {
+				b := stack[len(stack)-1]
+				stack = stack[:len(stack)-1]
+				if seen[b] {
+					continue
+				}
+				seen[b] = true
+				stored := false
+				for _, bi := range b.Instrs {
+					if mu, ok := bi.(*ssa.MapUpdate); ok && mu.Map == out && mu.Key == key {
+						stored = true
+					}
+				}
+				if stored {
+					continue
+				}
+				present := -1 // successor index that is the "already present in out" edge
+				if bif, ok := b.Instrs[len(b.Instrs)-1].(*ssa.If); ok {
+					cond, pol := bif.Cond, 0
+					for {
+						if u, ok := cond.(*ssa.UnOp); ok && u.Op == token.NOT {
+							cond, pol = u.X, 1-pol
+							continue
+						}
+						break
+					}
+					if ex, ok := cond.(*ssa.Extract); ok && ex.Index == 1 {
+						if lk, ok := ex.Tuple.(*ssa.Lookup); ok && lk.X == out {
+							present = pol
+						}
+					}
+				}
+				for i, s := range b.Succs {
+					if i == present {
+						continue
+					}
+					if s == header {
+						skip = b
+						break
+					}
+					stack = append(stack, s)
+				}
+			}
+			c.R.Check(skip == nil, "R-meta-kept", "entries of "+f.Key()+" flattened by "+fname(fn), c.Pos(fn.Pos()),
+				"every entry is emitted unless the output already has the key",
+				sprintf("%s skips entries of %s by their key alone: an entry such as \"_meta\" that reached the member (a typed value in a params map) is dropped from the wire although nothing else supplies it", fname(fn), f.Key()))
+		})
+	}
+	if n == 0 {
+		c.R.Break("R-meta-kept: no flattening marshaller found (a MarshalJSON that ranges over a map member and copies it into its output)")
+	}
 }
